@@ -408,17 +408,38 @@ func c17FillConf(c *Ctx) {
 	// of the package it calls (newFillConf(...))
 	var fill *ssa.Function
 	region := FindFuncs(pc, 2, func(*ssa.Function) bool { return true })
+	callsDav := func(a *ssa.Function) bool {
+		found := false
+		EachInstr(a, func(in ssa.Instruction) {
+			if cl, ok := in.(*ssa.Call); ok && cl.Call.StaticCallee() == dav {
+				found = true
+			}
+		})
+		return found
+	}
 	for _, a := range region {
-		if a.Parent() != nil && len(a.Params) == 1 {
-			callsDav := false
-			EachInstr(a, func(in ssa.Instruction) {
-				if cl, ok := in.(*ssa.Call); ok && cl.Call.StaticCallee() == dav {
-					callsDav = true
+		if a.Parent() != nil && len(a.Params) == 1 && callsDav(a) {
+			fill = a
+		}
+	}
+	// ... or a method of a small type of the package whose value parseConf returns (filler.fill)
+	if fill == nil {
+		for _, g := range region {
+			EachInstr(g, func(in ssa.Instruction) {
+				mc, ok := in.(*ssa.MakeClosure)
+				if !ok {
+					return
+				}
+				f, _ := mc.Fn.(*ssa.Function)
+				if f == nil || f.Synthetic == "" {
+					return
+				}
+				if o, isO := f.Object().(*types.Func); isO {
+					if d := P.SSA.FuncValue(o); d != nil && len(d.Blocks) > 0 && PkgOf(d) == PkgOf(pc) && callsDav(d) {
+						fill = d
+					}
 				}
 			})
-			if callsDav {
-				fill = a
-			}
 		}
 	}
 	if fill == nil {
@@ -436,7 +457,7 @@ func c17FillConf(c *Ctx) {
 		return
 	}
 	iv := countCalls(fill, func(in ssa.Instruction) bool { return in == ssa.Instruction(call) })
-	okArgs := call.Call.Args[1] == ssa.Value(fill.Params[0])
+	okArgs := call.Call.Args[1] == ssa.Value(fill.Params[len(fill.Params)-1]) // the closure's (or the method's) conf parameter
 	// arg 0: the confData map of parseConf (captured)
 	var tsk *ssa.Call
 	EachInstr(pc, func(in ssa.Instruction) {
